@@ -122,6 +122,7 @@ func checkC09(c *Ctx) {
 	c.checkTailCallShape()
 	c.checkLoopScopeDepth("ES-S")
 	c.checkTailArity("C09-ARITY")
+	c.checkSelfNameShadowing("C09-SHADOW")
 	c.checkGeneratorCtors("ES-CTOR")
 	c.checkRegisteredBeforeBody("C09-REG")
 }
@@ -602,4 +603,68 @@ func ascending(v ssa.Value) bool {
 		}
 	}
 	return false
+}
+
+// checkSelfNameShadowing: the tail path is chosen by comparing the callee's name with
+// the name of the function being compiled. Wherever the generator brings a name into
+// scope inside a function body (let / letseq bindings, parameters) it must compare
+// that name with the current function name and, on a match, stop treating calls of
+// it as self calls (it clears the current function name for the extent of the scope).
+func (c *Ctx) checkSelfNameShadowing(rule string) {
+	fn := c.field("Generator", "funcname")
+	symName := c.field("SexpSymbol", "name")
+	if fn == nil || symName == nil {
+		c.undecided(rule, "Generator", "funcname", token.NoPos, "Generator.funcname / SexpSymbol.name not found")
+		return
+	}
+	for _, name := range []string{"Generator.GenerateLet", "buildSexpFun"} {
+		f := c.mustFn(rule, name)
+		if f == nil {
+			continue
+		}
+		ok := false
+		for _, g := range withClosures(f) {
+			eachInstr(g, func(b *ssa.BasicBlock, i int, in ssa.Instruction) {
+				bo, isBo := in.(*ssa.BinOp)
+				if !isBo || (bo.Op != token.EQL && bo.Op != token.NEQ) {
+					return
+				}
+				_, xs := loadOfField(bo.X, symName)
+				_, yf := loadOfField(bo.Y, fn)
+				_, ys := loadOfField(bo.Y, symName)
+				_, xf := loadOfField(bo.X, fn)
+				if !((xs && yf) || (ys && xf)) {
+					return
+				}
+				// on the equal side the current function name is overwritten
+				cond, t, e := condBranch(b)
+				if cond != ssa.Value(bo) {
+					return
+				}
+				eq := t
+				if bo.Op == token.NEQ {
+					eq = e
+				}
+				for blk := range reachableAvoiding(eq, func(x *ssa.BasicBlock) bool { return false }) {
+					for _, in2 := range blk.Instrs {
+						if st, isSt := in2.(*ssa.Store); isSt {
+							if fa, isFa := st.Addr.(*ssa.FieldAddr); isFa && faField(fa) == fn {
+								ok = true
+							}
+						}
+					}
+				}
+				for _, in2 := range eq.Instrs {
+					if st, isSt := in2.(*ssa.Store); isSt {
+						if fa, isFa := st.Addr.(*ssa.FieldAddr); isFa && faField(fa) == fn {
+							ok = true
+						}
+					}
+				}
+			})
+		}
+		c.check(ok, rule, name, "a binding named like the function ends self-call recognition", f.Pos(),
+			"the names brought into scope here are compared with the current function name, which is cleared on a match",
+			"names are brought into scope here without being compared with the name of the function being compiled: a let binding or parameter that shadows the function is still taken for the function itself, and a call of it in tail position becomes a jump to the start of the enclosing function (which can loop for ever)")
+	}
 }
